@@ -199,26 +199,29 @@ Check C05_declarations_stable : forall files n x s sym d,
     define_loc s sym = Some d -> define_loc (snd (index_stmt files n x s)) sym = Some d.
 Print Assumptions C05_declarations_stable.
 
-(** C05_resolution (partial: classes / defs WITHOUT parent classes, no field access `v.f`, one file without
-    include; the step from the use log to go-to-definition / find-references at positions is
-    C05_goto_newest_entry under token disjointness).
-    For EVERY list of statements of the fragment [fragB_stmts] - class (template arguments with defaults,
-    fields, field lets, body defvars, asserts, dumps), def (named, pasted name, anonymous), multiclass (template
-    arguments, parent multiclasses, any body), defm, defset, defvar, foreach, if/else, let, assert, dump; values
-    with all 50 bang operators - indexed from the initial state with enough fuel: if every use is in scope
-    according to the declarative resolver ScopeSpec, then the list of uses the model records, in order, each with
-    the range of the declaration it was resolved to, is EXACTLY the list the specification computes, and no
-    "not found" diagnostic is emitted.  The specification has no scope stack, no arena, no early return: a scope
-    is an extension of an immutable environment that is forgotten when its construct is left. *)
+(** C05_resolution (partial: no field access `v.f`, one file without include; the step from the use log to
+    go-to-definition / find-references at positions is C05_goto_newest_entry under token disjointness).
+    For EVERY list of statements of the fragment [frag_stmt] (ScopeSpec.v, the predicate the check evaluates on
+    its inputs) - class (template arguments with defaults, PARENT CLASSES with arguments, fields, field lets, body
+    defvars, asserts, dumps), def (named, pasted name, anonymous; parent classes), multiclass (template arguments,
+    parent multiclasses, any body), defm, defset, defvar, foreach, if/else, let, assert, dump; values with all 50
+    bang operators - indexed from the initial state with enough fuel: if every use is in scope according to the
+    declarative resolver ScopeSpec, then the list of uses the model records, in order, each with the range of the
+    declaration it was resolved to, is EXACTLY the list the specification computes, and no "not found" diagnostic
+    is emitted.  The specification has no scope stack, no arena, no early return, no parent list and no recursive
+    field lookup: a scope is an extension of an immutable environment that is forgotten when its construct is
+    left, and a class is its FLATTENED field table (own declarations, then the tables of the parents in order);
+    the fields of a parent are in scope from the end of that parent's reference on (so for the arguments of the
+    later parents of the same list). *)
 Theorem C05_resolution_partial : forall files n l,
-    fragB_stmts l = true ->
+    forallb frag_stmt l = true ->
     forallb resolved (fst (spec_stmts 0 env0 l)) = true ->
     s_bad (snd (iterM (index_stmt files n) l st0)) = false ->
     rev (s_uses (snd (iterM (index_stmt files n) l st0))) = fst (spec_stmts 0 env0 l) /\
     nf (snd (iterM (index_stmt files n) l st0)) = [].
 Proof. exact file_resolution. Qed.
 Check C05_resolution_partial : forall files n l,
-    fragB_stmts l = true ->
+    forallb frag_stmt l = true ->
     forallb resolved (fst (spec_stmts 0 env0 l)) = true ->
     s_bad (snd (iterM (index_stmt files n) l st0)) = false ->
     rev (s_uses (snd (iterM (index_stmt files n) l st0))) = fst (spec_stmts 0 env0 l) /\
@@ -237,8 +240,31 @@ Print Assumptions C05_resolution_partial.
 Definition ex_file : list stmt :=
   [(SClass (mkId (mkR 0 6 7) [65]) (Some [(TArg TyInt (mkId (mkR 0 12 13) [112]) None); (TArg TyString (mkId (mkR 0 22 23) [113]) (Some (Val (mkR 0 26 29) [(Inner SString [])])))]) [] [(IField TyInt (mkId (mkR 0 37 38) [102]) (Some (Val (mkR 0 41 42) [(Inner (SId (mkId (mkR 0 41 42) [112])) [])]))); (IDefvar (mkId (mkR 0 51 52) [118]) (Val (mkR 0 55 65) [(Inner (SBang XAdd None [(Val (mkR 0 60 61) [(Inner (SId (mkId (mkR 0 60 61) [102])) [])]); (Val (mkR 0 63 64) [(Inner (SId (mkId (mkR 0 63 64) [112])) [])])] (mkR 0 55 65)) [])])); (ILet (mkId (mkR 0 71 72) [102]) (Val (mkR 0 75 76) [(Inner (SId (mkId (mkR 0 75 76) [118])) [])])); (IField TyString (mkId (mkR 0 85 86) [103]) (Some (Val (mkR 0 89 90) [(Inner (SId (mkId (mkR 0 89 90) [113])) [])])))]); (SDef (Some (Val (mkR 0 98 100) [(Inner (SId (mkId (mkR 0 98 99) [100])) [])])) (mkR 0 94 127) [] [(IField (TyClass (mkId (mkR 0 102 103) [65])) (mkId (mkR 0 104 105) [120]) (Some (Val (mkR 0 108 112) [(Inner (SClassVal (mkId (mkR 0 108 109) [65]) [(APos (Val (mkR 0 110 111) [(Inner SInt [])]) (mkR 0 110 111))] (mkR 0 108 112)) [])]))); (IField TyInt (mkId (mkR 0 118 119) [121]) (Some (Val (mkR 0 122 123) [(Inner SInt [])])))]); (SMulticlass (mkId (mkR 0 138 139) [77]) (Some [(TArg TyInt (mkId (mkR 0 144 145) [97]) None)]) [] [(SDef (Some (Val (mkR 0 153 155) [(Inner (SId (mkId (mkR 0 153 154) [88])) [])])) (mkR 0 149 170) [] [(IField TyInt (mkId (mkR 0 161 162) [119]) (Some (Val (mkR 0 165 166) [(Inner (SId (mkId (mkR 0 165 166) [97])) [])])))])]); (SDefm (Some (Val (mkR 0 177 179) [(Inner (SId (mkId (mkR 0 177 178) [90])) [])])) (mkR 0 172 187) [(CRef (mkId (mkR 0 181 182) [77]) [(APos (Val (mkR 0 183 184) [(Inner SInt [])]) (mkR 0 183 184))] (mkR 0 181 185))]); (SDefset (TyList (TyClass (mkId (mkR 0 199 200) [65]))) (mkId (mkR 0 202 203) [83]) [(SDef (Some (Val (mkR 0 212 215) [(Inner (SId (mkId (mkR 0 212 214) [101; 49])) [])])) (mkR 0 208 230) [] [(IField TyInt (mkId (mkR 0 221 222) [107]) (Some (Val (mkR 0 225 226) [(Inner SInt [])])))])]); (SForeach (mkId (mkR 0 240 241) [105]) (FeValue (Val (mkR 0 244 251) [(Inner (SList [(Val (mkR 0 245 246) [(Inner SInt [])]); (Val (mkR 0 248 249) [(Inner SInt [])])]) [])])) [(SDef (Some (Val (mkR 0 260 264) [(Inner (SId (mkId (mkR 0 260 261) [68])) []); (Inner (SId (mkId (mkR 0 262 263) [105])) [])])) (mkR 0 256 279) [] [(IField TyInt (mkId (mkR 0 270 271) [122]) (Some (Val (mkR 0 274 275) [(Inner (SId (mkId (mkR 0 274 275) [105])) [])])))])]); (SDefvar (mkId (mkR 0 288 289) [104]) (Val (mkR 0 292 293) [(Inner (SId (mkId (mkR 0 292 293) [83])) [])]))].
 Example C05_resolution_nonvacuous :
-  fragB_stmts ex_file = true /\ forallb resolved (fst (spec_stmts 0 env0 ex_file)) = true /\
+  forallb frag_stmt ex_file = true /\ forallb resolved (fst (spec_stmts 0 env0 ex_file)) = true /\
   s_bad (snd (iterM (index_stmt [] 80) ex_file st0)) = false /\
   length (fst (spec_stmts 0 env0 ex_file)) = 13%nat /\
   last (fst (spec_stmts 0 env0 ex_file)) (mkR 0 0 0, None) = (mkR 0 292 293, Some (mkR 0 202 203)).
 Proof. vm_compute. repeat split; reflexivity. Qed.
+
+(** ... and with inheritance (REAL parse of):
+      class B { int w = 1; }
+      class S<int n> : B { int bytes = n; }
+      class A<int a> { int al = a; }
+      class W : S<4>, A<bytes> { int z = !add(w, al); }
+      def d : W { int q = bytes; }
+      class R : R;
+    11 uses: `bytes` in `A<bytes>` (110..115) is the field of S inherited through the EARLIER parent of the same
+    list; `w` (132) is the field of B reached through S; `bytes` in the def (162..167) is reached through W; the
+    reference of R to itself resolves to R (and is reported, not attached). *)
+Definition ex_inherit : list stmt :=
+  [(SClass (mkId (mkR 0 6 7) [66]) None [] [(IField TyInt (mkId (mkR 0 14 15) [119]) (Some (Val (mkR 0 18 19) [(Inner SInt [])])))]); (SClass (mkId (mkR 0 29 30) [83]) (Some [(TArg TyInt (mkId (mkR 0 35 36) [110]) None)]) [(CRef (mkId (mkR 0 40 41) [66]) [] (mkR 0 40 42))] [(IField TyInt (mkId (mkR 0 48 53) [98; 121; 116; 101; 115]) (Some (Val (mkR 0 56 57) [(Inner (SId (mkId (mkR 0 56 57) [110])) [])])))]); (SClass (mkId (mkR 0 67 68) [65]) (Some [(TArg TyInt (mkId (mkR 0 73 74) [97]) None)]) [] [(IField TyInt (mkId (mkR 0 82 84) [97; 108]) (Some (Val (mkR 0 87 88) [(Inner (SId (mkId (mkR 0 87 88) [97])) [])])))]); (SClass (mkId (mkR 0 98 99) [87]) None [(CRef (mkId (mkR 0 102 103) [83]) [(APos (Val (mkR 0 104 105) [(Inner SInt [])]) (mkR 0 104 105))] (mkR 0 102 106)); (CRef (mkId (mkR 0 108 109) [65]) [(APos (Val (mkR 0 110 115) [(Inner (SId (mkId (mkR 0 110 115) [98; 121; 116; 101; 115])) [])]) (mkR 0 110 115))] (mkR 0 108 117))] [(IField TyInt (mkId (mkR 0 123 124) [122]) (Some (Val (mkR 0 127 138) [(Inner (SBang XAdd None [(Val (mkR 0 132 133) [(Inner (SId (mkId (mkR 0 132 133) [119])) [])]); (Val (mkR 0 135 137) [(Inner (SId (mkId (mkR 0 135 137) [97; 108])) [])])] (mkR 0 127 138)) [])])))]); (SDef (Some (Val (mkR 0 146 148) [(Inner (SId (mkId (mkR 0 146 147) [100])) [])])) (mkR 0 142 171) [(CRef (mkId (mkR 0 150 151) [87]) [] (mkR 0 150 152))] [(IField TyInt (mkId (mkR 0 158 159) [113]) (Some (Val (mkR 0 162 167) [(Inner (SId (mkId (mkR 0 162 167) [98; 121; 116; 101; 115])) [])])))]); (SClass (mkId (mkR 0 177 178) [82]) None [(CRef (mkId (mkR 0 181 182) [82]) [] (mkR 0 181 182))] [])].
+Example C05_resolution_inheritance_nonvacuous :
+  forallb frag_stmt ex_inherit = true /\ forallb resolved (fst (spec_stmts 0 env0 ex_inherit)) = true /\
+  s_bad (snd (iterM (index_stmt [] 80) ex_inherit st0)) = false /\
+  length (fst (spec_stmts 0 env0 ex_inherit)) = 11%nat /\
+  nth 5 (fst (spec_stmts 0 env0 ex_inherit)) (mkR 0 0 0, None) = (mkR 0 110 115, Some (mkR 0 48 53)) /\
+  nth 6 (fst (spec_stmts 0 env0 ex_inherit)) (mkR 0 0 0, None) = (mkR 0 132 133, Some (mkR 0 14 15)) /\
+  nth 9 (fst (spec_stmts 0 env0 ex_inherit)) (mkR 0 0 0, None) = (mkR 0 162 167, Some (mkR 0 48 53)) /\
+  rev (s_uses (snd (iterM (index_stmt [] 80) ex_inherit st0))) = fst (spec_stmts 0 env0 ex_inherit).
+Proof. vm_compute. repeat split; reflexivity. Qed.
+
